@@ -214,4 +214,15 @@ PROPS = {
                                      "inv:knots_unsorted": 0.02, "inv:huge_order": 0.02, "inv:monodim_out_of_range": 0.03, "inv:weights_length": 0.03, "via:C": 0.03}},
         assumptions=["reference normal equations (fitgen.hpp) decide whether a valid problem is well-posed"],
     ),
+    "C14": dict(
+        level="exploration",
+        level_text="Generated tables (1..4 dims, order 0..5 in the convolved dimension, any dimension index, irregular knots or a common grid with the kernel) are convolved with generated kernels of 2..6 increasing knots (symmetric, one-sided, shifted; wider and narrower than the knot spacing). Oracle: the new order and the sorted pairwise-sum knot vector bit for bit, untouched other dimensions, well-formed strides/counts; and at 10 points across the new knot range (interior, margins, knots) the table value must equal the convolution integral of the ORIGINAL reference surface with the unit-area kernel B-spline, integrated exactly by 8-point Gauss-Legendre between all breakpoints.",
+        level_note="Tolerance 32*eps_float*max|coeff| (measured worst case 0.5); the convolved dimension uses irregular knots with spacing ratio <= 12 and offsets in [-3,0] because blossoming through divided differences cannot deliver single precision when the spacing is tiny compared with the knot values (e.g. offset 1e6, spacing 1e-6). The largest observed error per (order, n) is in the evidence.",
+        technique="property-based testing (rapidcheck, fork-isolated) with a quadrature reference oracle",
+        units=[U("c14_convolve", "c14_convolve.cpp", quick=1600, thorough=250000, names=["convolution"])],
+        rule="Non-trivial: order>=1 with >=3 kernel knots, or a convolved dimension that is not the last one of a >=2-d table, or table and kernel on a common grid (repeated new knots); "
+             "distinct = hash(spec, dimension, kernel knots).",
+        essential={"convolution": {"order:0": 0.05, "order:2": 0.05, "order:5": 0.03, "kernel:on_grid": 0.1, "dim:not_last": 0.1, "kernel_knots:2": 0.05, "kernel_knots:6": 0.05}},
+        assumptions=["reference evaluation (ref.hpp) of the original table; Gauss-Legendre nodes to 25 digits"],
+    ),
 }
